@@ -239,6 +239,24 @@ func (s *mqSender) SendMsg(ctx context.Context, m gsmsg.GraphSyncMessage) error 
 			return errors.New("injected send failure")
 		}
 	}
+	// C15, while no queue of the peer has been shut down (then the only releases are per message): what the
+	// allocator holds for the peer covers at least this message and everything still pending behind it
+	if len(w.queues) == 1 && !s.n.q.told && !s.n.q.exited && !doneClosed(s.n.q.mq) {
+		var unsent uint64
+		for _, b := range m.Blocks() {
+			unsent += uint64(len(b.RawData()))
+		}
+		if bf, ok := core.Field(s.n.q.mq, "builders"); ok {
+			for i := 0; i < bf.Len(); i++ {
+				if b, ok := bf.Index(i).Interface().(*messagequeue.Builder); ok {
+					unsent += b.BlockSize()
+				}
+			}
+		}
+		if held := w.alloc.AllocatedForPeer(mqPeer); held < unsent {
+			w.violate("accounted-less-than-unsent", fmt.Sprintf("at a write of queue %d the allocator holds %d bytes for the peer while %d bytes of block data are unsent (this message and the pending ones): some bytes were returned more than once", s.n.q.id, held, unsent))
+		}
+	}
 	// two queues of one peer must never be inside SendMsg at once
 	if w.inSend > 0 {
 		w.violate("concurrent-send-by-two-queues", fmt.Sprintf("queue %d sends while another queue of the same peer is sending", s.n.q.id))
@@ -769,6 +787,9 @@ func mqJudge(id string, sc mqScenario, o *mqObs) *core.Violation {
 	switch id {
 	case "C17":
 		for _, v := range o.viol {
+			if strings.HasPrefix(v, "accounted-less-than-unsent|") {
+				continue // C15's invariant
+			}
 			p := strings.SplitN(v, "|", 2)
 			return mk(p[0], p[1])
 		}
@@ -800,6 +821,12 @@ func mqJudge(id string, sc mqScenario, o *mqObs) *core.Violation {
 			return mk("reported-twice", strings.Join(o.duplicates, "; "))
 		}
 	case "C15":
+		for _, v := range o.viol {
+			if strings.HasPrefix(v, "accounted-less-than-unsent|") {
+				p := strings.SplitN(v, "|", 2)
+				return mk(p[0], p[1])
+			}
+		}
 		if o.allocFail > 0 {
 			return mk("queued-without-successful-reservation", fmt.Sprintf("%d reservation(s) resolved with an error but the data was still queued", o.allocFail))
 		}
